@@ -26,6 +26,22 @@ CHECKS = {
         text="Exploration: every completed RadioSignal construction and every selection event observed in the workloads is compared "
              "with the documented label formula in exact rational arithmetic; nested selections are re-checked end to end.",
         ref="DESIGN.md section 2 C02"),
+    "C03": dict(
+        technique="runtime monitoring: postcondition monitor on every time_shift call comparing each element with an independent "
+                  "(longdouble DFT-matrix / numpy.fft complex128) shift-theorem reference in l2 norm, plus exact-zero check of the "
+                  "out-of-range region",
+        text="Exploration: every time_shift execution in a stratified workload over lengths, dtypes, sample shapes, shift values and "
+             "every broadcastable shift-array shape (NumPy and Dask) is judged per element against an independent DFT oracle with a "
+             "tolerance derived from the documented complex64 phase ramp; crop=True is checked to be the crop=False result with the "
+             "edge samples removed.",
+        ref="DESIGN.md section 2 C03"),
+    "C04": dict(
+        technique="runtime monitoring: postcondition monitor on every freq_shift call; per-element reference spectrum (moved, wrapped "
+                  "bins zeroed) from an independent DFT; l2 error of output and direct check of the output's DFT in the zeroed bins",
+        text="Exploration: every freq_shift execution in a stratified workload (lengths, channel/polarisation shapes, complex widths, "
+             "scalar and broadcast shifts of either sign, whole/fractional bins, beyond the bandwidth; NumPy and Dask) is judged per "
+             "element against an independent complex128/longdouble oracle; type/dtype/labels/times must be unchanged.",
+        ref="DESIGN.md section 2 C04"),
     "C16": dict(
         technique="runtime monitoring: class-invariant hook on every construction and every operation result, refusal oracle on "
                   "hostile arguments, attribute-equality oracle on copies, sys.monitoring failpoints inside constructors",
